@@ -99,9 +99,11 @@ def run(tier, seed):
         t = tabs[I["t"] - 1]
         c = 0.01 * rng.uniform(0.5, 2.0)
         cell = gl.cell_from_recip_metric(I["met"], c)
+        if I.get("pseudo"):
+            cell[1] *= (1 + 4e-8)          # b a hair longer: among exact ties the reflection with the larger |k| now comes first
         smin, smax = gl.bounds(I["K"], I["Kmin"], c)
         mod = "tools" if (i % 2 or tier == "thorough") else "laue"
-        mods = ["tools", "laue"] if (tier == "thorough" or I.get("long")) else [mod]
+        mods = ["tools", "laue"] if (tier == "thorough" or I.get("long") or I.get("pseudo")) else [mod]
         for m in mods:
             kw = dict(sgno=t["no"], cell_choice=t["setting"]) if rng.random() < 0.5 else dict(sgname=t["name_text"])
             for func, ostl in (("genhkl_unique", True), ("genhkl_unique", False), ("genhkl_all", True)):
@@ -150,11 +152,20 @@ def run(tier, seed):
         for k in (("genhkl_unique", True), ("genhkl_all", True)):
             res = d[k][0]
             qs = [Qf(I["met"], h) for h in rows[k]]
-            if any(qs[j] > qs[j + 1] for j in range(len(qs) - 1)):
+            if I.get("pseudo"):
+                # exact order on the detuned cell: Q' = g11 h^2 + g22 k^2/(1+eps)^2 + g33 l^2, eps = 4e-8, in exact fractions
+                from fractions import Fraction
+                e2 = (1 + Fraction(4, 10 ** 8)) ** 2
+                qx = [I["met"][0] * h[0] * h[0] + Fraction(I["met"][1] * h[1] * h[1]) / e2 + I["met"][2] * h[2] * h[2] for h in rows[k]]
+                if any(qx[j] > qx[j + 1] for j in range(len(qx) - 1)):
+                    j = [j for j in range(len(qx) - 1) if qx[j] > qx[j + 1]][0]
+                    v.violation("%s rows are not in non-decreasing sin(theta)/lambda order on a pseudo-tetragonal cell (b = a(1+4e-8)): "
+                                "%s comes before %s (%s)" % (k[0], list(rows[k][j]), list(rows[k][j + 1]), tag), desc)
+            elif any(qs[j] > qs[j + 1] for j in range(len(qs) - 1)):
                 v.violation("%s rows are not in non-decreasing sin(theta)/lambda order (%s)" % (k[0], tag), desc)
             for row, q in zip(res, qs):
                 want = math.sqrt(c * q / 4.0)
-                if abs(row[3] - want) > 1e-9 * want:
+                if abs(row[3] - want) > (1e-9 if not I.get("pseudo") else 1e-6) * want:
                     v.violation("%s fourth column %r is not sintl of hkl %s (%.12g) (%s)" % (k[0], row[3], row[:3], want, tag), desc)
                     break
             if any(not (I["Kmin"] < q <= I["K"]) for q in qs):
